@@ -418,7 +418,10 @@ def rule_ed_sets(ctx: RuleContext, p: Program, rid: str, fns: Optional[list[Func
         if has_write:
             writes += 1
             it = loop.iter
-            ok = norm(it) in (f'{mapping}.items()', mapping, f'list({mapping}.items())')
+            core = it
+            while isinstance(core, ast.Call) and norm(core.func) in ('list', 'sorted', 'tuple', 'iter') and len(core.args) == 1 and not core.keywords:
+                core = core.args[0]
+            ok = norm(core) in (f'{mapping}.items()', mapping, f'{mapping}.keys()')
             ctx.check(ok, rid, 'editor:Editor.edit_file_recursive: writes', norm(it),
                       f'writes iterate `{norm(it)}`, not the yielded mapping {mapping}', fn.where, note=norm(it))
     if dels != 1 or writes != 1:
@@ -522,6 +525,8 @@ def run(ctx: RuleContext, p: Program) -> None:
     ctx.try_rule(rule_ed_fresh, p, fns, 'ED-FRESH')
     ctx.try_rule(rule_ed_order, p, fns, 'ED-ORDER')
     ctx.try_rule(rule_ed_glob, p, fns, 'ED-GLOB')
+    ctx.try_rule(rule_ed_target, p, fns, 'ED-TARGET')
+    ctx.try_rule(rule_ed_pair, p, 'ED-PAIR', fns)
     ctx.not_decided += ['glob matching semantics', 'filesystem races', 'what the parser/printer produce (C01)']
     ctx.assumptions += ['Python io newline semantics: newline=None translates on read and to os.linesep on write; '
                         'any other value disables translation on read; \'\' and \'\\n\' write verbatim',
@@ -709,3 +714,340 @@ def rule_ed_glob(ctx: RuleContext, p: Program, fns: list[FuncInfo], rid: str) ->
                       f'`{norm(c)[:90]}`: ' + ('the pattern is not taken relative to the directory of the including file' if not joined else
                                                'recursive=True is missing, so `**` in an include pattern matches one level only'), f.where,
                       note='glob.glob(join(dirname(path), filename), recursive=True)')
+
+
+# ====================================================================== ED-TARGET (added after seeded round 6)
+_SAME_FILE_CALLS = {'pathlib.Path', 'pathlib.PurePath', 'pathlib.PosixPath', 'Path', 'os.fspath', 'str', 'os.path.normpath', 'os.path.abspath',
+                    'os.path.realpath', 'os.fsdecode', 'os.path.expanduser', 'os.path.normcase'}
+_SAME_FILE_METHODS = {'resolve', 'absolute', 'expanduser', 'as_posix', '__fspath__'}
+_CONTAINER_CTORS = {'set', 'list', 'sorted', 'tuple', 'frozenset', 'collections.deque', 'deque', 'dict', 'iter', 'reversed'}
+_RANK = {'session': 0, 'fresh': 1, 'unknown': 2, 'derived': 3}
+
+
+def _worst(cs: Iterable[tuple[str, str]]) -> tuple[str, str]:
+    best = ('session', '')
+    for c in cs:
+        if _RANK[c[0]] > _RANK[best[0]]:
+            best = c
+    return best
+
+
+class _Targets:
+    """which file does a path expression of the editor name?  `session`: the path the caller passed, a path found through an include
+    directive, or a key of the yielded mapping, possibly through a same-file conversion; `fresh`: a name handed out by tempfile;
+    `derived`: a name computed from another one (suffix, sibling, join, string arithmetic) -- a different file; `unknown` otherwise."""
+
+    def __init__(self, p: Program, fn: FuncInfo, env: Optional[dict[str, tuple[str, str]]] = None, depth: int = 0) -> None:
+        self.p, self.fn, self.depth = p, fn, depth
+        a = fn.node.args
+        params = [x.arg for x in [*a.posonlyargs, *a.args, *a.kwonlyargs]]
+        if fn.cls is not None and params:
+            params = params[1:]
+        self.env: dict[str, tuple[str, str]] = env if env is not None else {q: ('session', '') for q in params}
+        self.busy: set[str] = set()
+        ys = [y for y in walk_no_nested(fn.node) if isinstance(y, ast.Yield) and isinstance(y.value, ast.Name)]
+        self.yielded = {y.value.id for y in ys} if fn.cls is not None else set()  # type: ignore[union-attr]
+
+    # ---- bindings of a local name
+    def name(self, nm: str) -> tuple[str, str]:
+        if nm in self.env:
+            return self.env[nm]
+        if nm in self.busy:
+            return ('session', '')          # a cycle through the work list adds nothing new
+        self.busy.add(nm)
+        try:
+            found: list[tuple[str, str]] = []
+            for st in walk_no_nested(self.fn.node):
+                if isinstance(st, (ast.Assign, ast.AnnAssign)) and st.value is not None:
+                    for t in (st.targets if isinstance(st, ast.Assign) else [st.target]):
+                        if isinstance(t, ast.Name) and t.id == nm:
+                            found.append(self.expr(st.value))
+                        elif isinstance(t, (ast.Tuple, ast.List)) and any(isinstance(e, ast.Name) and e.id == nm for e in t.elts):
+                            v = st.value
+                            if isinstance(v, ast.Call) and (dotted(v.func) or '').startswith('tempfile.'):
+                                found.append(('fresh', ''))
+                            elif isinstance(v, (ast.Tuple, ast.List)) and len(v.elts) == len(t.elts):
+                                k = [i for i, e in enumerate(t.elts) if isinstance(e, ast.Name) and e.id == nm][0]
+                                found.append(self.expr(v.elts[k]))
+                            else:
+                                found.append(('unknown', f'{nm} is unpacked from `{norm(v)[:50]}`'))
+                elif isinstance(st, ast.NamedExpr) and isinstance(st.target, ast.Name) and st.target.id == nm:
+                    found.append(self.expr(st.value))
+                elif isinstance(st, (ast.For, ast.comprehension)):
+                    found += self._loop_target(st.target, st.iter, nm)
+                elif isinstance(st, ast.With):
+                    for it in st.items:
+                        if isinstance(it.optional_vars, ast.Name) and it.optional_vars.id == nm:
+                            c = it.context_expr
+                            if isinstance(c, ast.Call) and (dotted(c.func) or '').startswith('tempfile.'):
+                                found.append(('fresh', ''))
+                            else:
+                                found.append(('unknown', f'{nm} is bound by `with {norm(c)[:50]}`'))
+            if not found:
+                return ('unknown', f'no binding of {nm} found')
+            return _worst(found)
+        finally:
+            self.busy.discard(nm)
+
+    def _loop_target(self, target: ast.AST, it: ast.AST, nm: str) -> list[tuple[str, str]]:
+        if isinstance(target, ast.Name) and target.id == nm:
+            return [self.elements(it)]
+        if isinstance(target, (ast.Tuple, ast.List)) and target.elts and isinstance(target.elts[0], ast.Name) and target.elts[0].id == nm:
+            # for k, v in X.items() / enumerate is not a path
+            if isinstance(it, ast.Call) and isinstance(it.func, ast.Attribute) and it.func.attr == 'items' and not it.args:
+                return [self.elements(it.func.value)]
+            if isinstance(it, ast.Call) and norm(it.func) in ('list', 'sorted', 'tuple') and len(it.args) == 1:
+                return self._loop_target(target, it.args[0], nm)
+            return [('unknown', f'{nm} is unpacked from `{norm(it)[:50]}`')]
+        return []
+
+    # ---- a path expression
+    def expr(self, e: ast.AST) -> tuple[str, str]:
+        if isinstance(e, ast.Name):
+            return self.name(e.id)
+        if isinstance(e, ast.NamedExpr):
+            return self.expr(e.value)
+        if isinstance(e, ast.IfExp):
+            return _worst([self.expr(e.body), self.expr(e.orelse)])
+        if isinstance(e, ast.Attribute) and e.attr == 'name':
+            inner = self.expr(e.value)
+            if inner[0] == 'fresh':
+                return inner
+        if isinstance(e, ast.Call):
+            nm = dotted(e.func) or ''
+            if nm in _SAME_FILE_CALLS and len(e.args) == 1 and not e.keywords:
+                return self.expr(e.args[0])
+            if nm.startswith('tempfile.'):
+                return ('fresh', '')
+            if isinstance(e.func, ast.Attribute) and e.func.attr in _SAME_FILE_METHODS and not e.args:
+                return self.expr(e.func.value)
+            if isinstance(e.func, ast.Attribute) and e.func.attr in ('popleft', 'pop') and len(e.args) <= 1:
+                return self.elements(e.func.value)
+            if isinstance(e.func, ast.Name) and e.func.id == 'next' and e.args:
+                return self.elements(e.args[0])
+        if isinstance(e, ast.Subscript) and isinstance(e.slice, (ast.Constant, ast.UnaryOp)) and not isinstance(e.value, ast.Call):
+            return self.elements(e.value)
+        if isinstance(e, (ast.BinOp, ast.JoinedStr)) or (isinstance(e, ast.Call) and isinstance(e.func, ast.Attribute)) \
+                or (isinstance(e, ast.Call) and (dotted(e.func) or '').startswith('os.path.')) or isinstance(e, ast.Attribute):
+            if any(self.expr(x)[0] in ('session', 'derived') for x in ast.walk(e) if isinstance(x, ast.Name) and x is not e):
+                return ('derived', f'`{norm(e)[:70]}` computes another name from a session path')
+        if isinstance(e, ast.Constant):
+            return ('derived', f'the constant {norm(e)[:40]}')
+        return ('unknown', f'`{norm(e)[:60]}`')
+
+    # ---- the elements (keys, for a mapping) of a collection expression
+    def elements(self, e: ast.AST) -> tuple[str, str]:
+        if isinstance(e, ast.Name):
+            if e.id in self.yielded:
+                base: list[tuple[str, str]] = [('session', '')]     # entries the caller adds are files to create
+            else:
+                base = []
+            key = 'C:' + e.id
+            if key in self.busy:
+                return ('session', '')
+            self.busy.add(key)
+            try:
+                n_src = 0
+                for st in walk_no_nested(self.fn.node):
+                    if isinstance(st, (ast.Assign, ast.AnnAssign)) and st.value is not None:
+                        for t in (st.targets if isinstance(st, ast.Assign) else [st.target]):
+                            if isinstance(t, ast.Name) and t.id == e.id:
+                                n_src += 1
+                                base.append(self.elements(st.value))
+                            elif isinstance(t, ast.Subscript) and isinstance(t.value, ast.Name) and t.value.id == e.id:
+                                n_src += 1
+                                base.append(self.expr(t.slice))
+                    elif isinstance(st, ast.AugAssign) and isinstance(st.target, ast.Name) and st.target.id == e.id:
+                        n_src += 1
+                        base.append(self.elements(st.value))
+                    elif isinstance(st, ast.Call) and isinstance(st.func, ast.Attribute) and isinstance(st.func.value, ast.Name) and st.func.value.id == e.id:
+                        if st.func.attr in ('append', 'add', 'appendleft') and len(st.args) == 1:
+                            n_src += 1
+                            base.append(self.expr(st.args[0]))
+                        elif st.func.attr in ('extend', 'update', 'extendleft') and len(st.args) == 1:
+                            n_src += 1
+                            base.append(self.elements(st.args[0]))
+                        elif st.func.attr == 'setdefault' and st.args:
+                            n_src += 1
+                            base.append(self.expr(st.args[0]))
+                    elif isinstance(st, (ast.For, ast.comprehension)):
+                        base += self._loop_target(st.target, st.iter, e.id) if isinstance(st.target, ast.Name) and st.target.id == e.id else []
+                if e.id in self.env:
+                    return self.env[e.id]
+                if not base:
+                    return ('unknown', f'nothing is known about the collection {e.id}')
+                return _worst(base)
+            finally:
+                self.busy.discard(key)
+        if isinstance(e, (ast.List, ast.Set, ast.Tuple)):
+            return _worst([self.elements(x.value) if isinstance(x, ast.Starred) else self.expr(x) for x in e.elts])
+        if isinstance(e, ast.Dict):
+            return _worst([self.expr(k) for k in e.keys if k is not None])
+        if isinstance(e, ast.BinOp) and isinstance(e.op, (ast.Sub, ast.BitOr, ast.BitAnd, ast.Add)):
+            return _worst([self.elements(e.left)] + ([self.elements(e.right)] if not isinstance(e.op, ast.Sub) else []))
+        if isinstance(e, (ast.ListComp, ast.SetComp, ast.GeneratorExp, ast.DictComp)):
+            elt = e.key if isinstance(e, ast.DictComp) else e.elt
+            return self.expr(elt)
+        if isinstance(e, ast.Subscript) and isinstance(e.value, ast.Name) and e.value.id in ('dict', 'set', 'list'):
+            return ('session', '')
+        if isinstance(e, ast.Call):
+            nm = dotted(e.func) or ''
+            if isinstance(e.func, ast.Subscript):                       # dict[str, str]()
+                nm = dotted(e.func.value) or ''
+            if nm in _CONTAINER_CTORS or nm.endswith('.deque'):
+                if not e.args:
+                    return ('session', '')                              # an empty collection
+                return self.elements(e.args[0])
+            if nm in ('glob.glob', 'glob.iglob'):
+                return ('session', '')                                  # files matched by an include directive
+            if nm == 'map' and len(e.args) == 2:
+                f = dotted(e.args[0]) or ''
+                return self.elements(e.args[1]) if f in _SAME_FILE_CALLS else ('unknown', f'map through {f}')
+            if nm in ('itertools.chain',):
+                return _worst([self.elements(a) for a in e.args])
+            if isinstance(e.func, ast.Attribute) and e.func.attr in ('keys', 'copy', 'difference', 'union', 'intersection', 'items'):
+                return self.elements(e.func.value)
+            if isinstance(e.func, ast.Name) and self.depth < 3:
+                g = self.fn.module.symbols.get(e.func.id)
+                if isinstance(g, FuncInfo):
+                    ga = g.node.args
+                    gparams = [x.arg for x in [*ga.posonlyargs, *ga.args]]
+                    genv = {q: self.expr(a) if self._pathlike(a) else ('unknown', f'argument {norm(a)[:40]}') for q, a in zip(gparams, e.args)}
+                    sub = _Targets(self.p, g, genv, self.depth + 1)
+                    outs: list[tuple[str, str]] = []
+                    for y in walk_no_nested(g.node):
+                        if isinstance(y, ast.Yield) and y.value is not None:
+                            outs.append(sub.expr(y.value))
+                        elif isinstance(y, ast.YieldFrom):
+                            outs.append(sub.elements(y.value))
+                        elif isinstance(y, ast.Return) and y.value is not None:
+                            outs.append(sub.elements(y.value))
+                    if outs:
+                        return _worst(outs)
+        return ('unknown', f'the elements of `{norm(e)[:60]}`')
+
+    def _pathlike(self, a: ast.AST) -> bool:
+        return isinstance(a, (ast.Name, ast.Call, ast.Attribute))
+
+
+def _mutation_targets(fn: FuncInfo) -> list[tuple[ast.Call, str, list[ast.AST]]]:
+    """(call, what it does, path expressions it writes / removes / renames)"""
+    out: list[tuple[ast.Call, str, list[ast.AST]]] = []
+    for s in io_sites(fn):
+        if not s['write']:
+            continue
+        c = s['node']
+        if s['kind'] == 'open':
+            nm = dotted(c.func) or ''
+            recv = c.func.value if isinstance(c.func, ast.Attribute) and nm != 'io.open' else (c.args[0] if c.args else _kw(c, 'file'))
+            if recv is not None:
+                out.append((c, 'writes', [recv]))
+        elif isinstance(c.func, ast.Attribute):
+            out.append((c, 'writes', [c.func.value]))
+    for c in walk_no_nested(fn.node):
+        if not isinstance(c, ast.Call):
+            continue
+        nm = dotted(c.func) or ''
+        if nm in ('os.unlink', 'os.remove') and c.args:
+            out.append((c, 'deletes', [c.args[0]]))
+        elif nm in ('os.rename', 'os.replace', 'shutil.move', 'shutil.copy', 'shutil.copyfile', 'shutil.copy2', 'os.link', 'os.symlink') and len(c.args) >= 2:
+            out.append((c, 'renames/copies', [c.args[0], c.args[1]]))
+        elif isinstance(c.func, ast.Attribute) and c.func.attr in ('unlink', 'touch') and nm not in ('os.unlink',) and len(c.args) == 0:
+            out.append((c, 'deletes' if c.func.attr == 'unlink' else 'creates', [c.func.value]))
+        elif isinstance(c.func, ast.Attribute) and c.func.attr in ('rename', 'replace', 'hardlink_to', 'symlink_to') and len(c.args) == 1 and not c.keywords \
+                and not nm.startswith(('os.', 'shutil.')):
+            out.append((c, 'renames', [c.func.value, c.args[0]]))
+    return out
+
+
+def rule_ed_target(ctx: RuleContext, p: Program, fns: list[FuncInfo], rid: str) -> None:
+    ctx.rule(rid, 'every path the editor writes, deletes or renames is a session path -- the path the caller passed, a path matched through '
+                  'an include directive, or a key of the yielded mapping, at most converted between spellings of the same file (Path, fspath, '
+                  'normpath, abspath, resolve) -- or a fresh name from tempfile.  A name computed from a session path (a suffix or sibling '
+                  'such as `<name>.tmp`, a join, string arithmetic) is another file of the tree, which an edit session must not touch')
+    n = 0
+    for fn in fns:
+        if fn.cls is None or fn.parent is not None:
+            continue
+        tg = _Targets(p, fn)
+        for c, what, exprs in _mutation_targets(fn):
+            for e in exprs:
+                n += 1
+                kind, why = tg.expr(e)
+                ctx.check(kind in ('session', 'fresh'), rid, f'editor:{fn.qualname}', f'{what} {norm(e)[:60]}',
+                          (f'`{norm(c)[:80]}` {what} `{norm(e)[:50]}`: {why} -- a file other than the one being edited is created, overwritten or '
+                           f'removed' if kind == 'derived' else
+                           f'`{norm(c)[:80]}` {what} `{norm(e)[:50]}`, which cannot be traced to a session path ({why})'),
+                          f'{fn.module.relpath}:{c.lineno}', note=f'{kind} path')
+    if n < 3:
+        raise AnalysisError(f'ED-TARGET: only {n} written/deleted paths found (3 confirmed by hand)')
+
+
+# ====================================================================== ED-PAIR (added after seeded round 6)
+def rule_ed_pair(ctx: RuleContext, p: Program, rid: str, fns: Optional[list[FuncInfo]] = None) -> None:
+    ctx.rule(rid, 'the map of texts read and the yielded map of models are filled in pairs: on every path through the traversal loop that '
+                  'records the text of a path, a model is recorded for the same path before the next iteration and before the yield (a file '
+                  'that is read but gets no model is in set(texts) - set(files) at exit and is deleted although the caller removed nothing)')
+    fn = _entry(p, fns, 'edit_file_recursive')
+    ys = [y for y in walk_no_nested(fn.node) if isinstance(y, ast.Yield)]
+    if len(ys) != 1 or not isinstance(ys[0].value, ast.Name):
+        raise AnalysisError('ED-PAIR: single `yield <mapping>` not found')
+    mapping = ys[0].value.id
+    originals: set[str] = set()
+    for x in walk_no_nested(fn.node):
+        if isinstance(x, ast.BinOp) and isinstance(x.op, ast.Sub) and norm(x.right) in (f'set({mapping})', f'{mapping}.keys()', mapping):
+            l = x.left
+            if isinstance(l, ast.Call) and l.args and isinstance(l.args[0], ast.Name):
+                originals.add(l.args[0].id)
+            elif isinstance(l, ast.Call) and isinstance(l.func, ast.Attribute) and isinstance(l.func.value, ast.Name):
+                originals.add(l.func.value.id)
+            elif isinstance(l, ast.Name):
+                originals.add(l.id)
+    originals.discard(mapping)
+    if len(originals) != 1:
+        raise AnalysisError(f'ED-PAIR: the map of original texts was not identified ({sorted(originals)})')
+    texts = originals.pop()
+    bad: list[str] = []
+    stores = {'t': 0, 'm': 0}
+
+    def key_of(t: ast.AST) -> Optional[tuple[str, str]]:
+        if isinstance(t, ast.Subscript) and isinstance(t.value, ast.Name) and t.value.id in (texts, mapping):
+            return ('t' if t.value.id == texts else 'm', norm(t.slice))
+        return None
+
+    def transfer(s: Any, ev: tuple[Any, ...]) -> Iterable[Any]:
+        # s: frozenset of ('t'|'m', key) stores that still wait for their partner
+        if ev[0] == 'store':
+            k = key_of(ev[1])
+            if k is not None:
+                stores[k[0]] += 1
+                other = ('m' if k[0] == 't' else 't', k[1])
+                return [s - {other} if other in s else s | {k}]
+            if isinstance(ev[1], ast.Name) and ev[1].id == mapping and isinstance(ev[2], (ast.DictComp, ast.Call)) \
+                    and any(isinstance(x, ast.Name) and x.id == texts for x in ast.walk(ev[2])):
+                stores['m'] += 1
+                return [frozenset(x for x in s if x[0] != 't')]           # files built from texts as a whole
+        if ev[0] == 'eval' and isinstance(ev[1], ast.Call) and isinstance(ev[1].func, ast.Attribute) and isinstance(ev[1].func.value, ast.Name) \
+                and ev[1].func.value.id in (texts, mapping) and ev[1].func.attr in ('setdefault', '__setitem__') and ev[1].args:
+            k = ('t' if ev[1].func.value.id == texts else 'm', norm(ev[1].args[0]))
+            stores[k[0]] += 1
+            other = ('m' if k[0] == 't' else 't', k[1])
+            return [s - {other} if other in s else s | {k}]
+        if ev[0] == 'iterate' or (ev[0] == 'assume' and any(ev[1] is w.test for w in loops)) or ev[0] == 'yield':
+            if s:
+                kind = 'the yield' if ev[0] == 'yield' else 'the next iteration'
+                for k in sorted(s):
+                    msg = (f'{texts}[{k[1]}] is recorded but {kind} can be reached without {mapping}[{k[1]}]' if k[0] == 't' else
+                           f'{mapping}[{k[1]}] is recorded but {kind} can be reached without {texts}[{k[1]}]')
+                    if msg not in bad:
+                        bad.append(msg)
+                return [frozenset()]
+        return [s]
+
+    loops = [x for x in walk_no_nested(fn.node) if isinstance(x, ast.While)]
+    Walker(transfer).run(stmts_no_doc(fn.node.body), [frozenset()])
+    if stores['t'] < 1 or stores['m'] < 1:
+        raise AnalysisError(f'ED-PAIR: stores into {texts} / {mapping} not found ({stores})')
+    ctx.check(not bad, rid, 'editor:Editor.edit_file_recursive: paired maps', '; '.join(bad) or f'{texts} / {mapping}',
+              '; '.join(bad) + ': a file that was read but has no model is deleted at exit (or a model without original text is always rewritten)',
+              fn.where, note=f'{texts}[k] and {mapping}[k] stored on the same paths')
